@@ -214,17 +214,41 @@ pub fn gen_rq(r: &mut Rng) -> String {
     let q = gen_q(r, 3);
     let dir = if r.chance(1, 2) { "asc" } else { "desc" };
     let stop = if r.chance(1, 2) { "-".to_string() } else { r.range(0, 5).to_string() };
-    let mode = if r.chance(1, 4) { "odd" } else { "all" };
+    let mode = *r.pick(&["all", "all", "odd", "cnt"]);
     format!("rq {dir} {stop} {mode} {}", q.tokens())
 }
 
-pub fn gen_next(r: &mut Rng, w: &World) -> String {
+/// One generator step: usually one line, sometimes a short directed burst.
+pub fn gen_next(r: &mut Rng, w: &World) -> Vec<String> {
+    if r.chance(1, 25)
+        && let Some((_, k)) = existing_pair(r, w)
+    {
+        // flush, then either grow one posting until it migrates or remove the whole key, flush again
+        let mut v = vec!["flush".to_string()];
+        if r.chance(1, 2) {
+            for i in 0..(1 + r.below(4)) {
+                v.push(format!("ins {} {k}", 5_000_000_000u64 + i));
+            }
+        } else {
+            for d in w.oracle[&k].iter() {
+                v.push(format!("rem {d} {k}"));
+            }
+        }
+        v.push(if r.chance(1, 3) { format!("crash {}", r.below(1000)) } else { "flush".to_string() });
+        return v;
+    }
+    vec![gen_one(r, w)]
+}
+
+fn gen_one(r: &mut Rng, w: &World) -> String {
     let x = r.usize(100);
     match x {
-        0..=29 => {
-            // insert: on a unique index mostly fresh keys, sometimes a conflicting one
-            format!("ins {} {}", id(r), key(r))
-        }
+        0..=24 => format!("ins {} {}", id(r), key(r)),
+        25..=29 => match existing_pair(r, w) {
+            // grow an existing posting with wide ids (appends overflow a bucket and migrate it)
+            Some((_, k)) => format!("ins {} {k}", *r.pick(&[5_000_000_000u64, 5_000_000_001, 5_000_000_002, 70_000, 70_001, 300])),
+            None => format!("ins {} {}", id(r), key(r)),
+        },
         30..=41 => match existing_pair(r, w) {
             Some((d, k)) if r.chance(4, 5) => format!("rem {d} {k}"),
             _ => format!("rem {} {}", id(r), key(r)),
@@ -295,7 +319,7 @@ pub fn gen_checkpoint(r: &mut Rng, w: &World) -> Vec<String> {
     for i in 0..3 {
         let q = if i == 0 { Q::Ge(i64::MIN) } else { gen_q(r, 3) };
         let groups = w.oracle.keys().filter(|k| q.selects(**k)).count();
-        let mode = if r.chance(1, 4) { "odd" } else { "all" };
+        let mode = *r.pick(&["all", "all", "odd", "cnt"]);
         for dir in ["asc", "desc"] {
             v.push(format!("rq {dir} - {mode} {}", q.tokens()));
             for n in 1..=(groups + 1).min(7) {
